@@ -269,7 +269,11 @@ func runSim(c *proto.Corpus, e *proto.Expected, seed uint64, proc, runs int, bui
 	}
 	res.SigAll = 0xcbf29ce484222325
 	used := map[int]bool{}
+	leaks := 0
 	for i := 0; i < runs; i++ {
+		if leaks > 20 {
+			break // leaked library goroutines keep spinning in this process: start a fresh one
+		}
 		if budgetMs > 0 && i%16 == 0 && time.Since(t0).Milliseconds() > budgetMs {
 			break
 		}
@@ -327,6 +331,11 @@ func runSim(c *proto.Corpus, e *proto.Expected, seed uint64, proc, runs int, bui
 		probe("panic_while_others_inflight", o.sim.PanicOver)
 		probe("lock_contention", o.sim.Blocked > 0)
 		probe("stalled_task_released_last", o.sim.Unstalled)
+		probe("library_goroutine_leaked", o.sim.Leaked)
+		res.Faults["library_goroutines_spawned"] += int(o.sim.Spawned)
+		if o.sim.Leaked {
+			leaks++
+		}
 		probe("truncated_event_log", o.sim.Truncated)
 		nontrivial := (len(rec.Tasks) >= 2 && o.sim.Overlap && o.sim.Switches >= 1) || (rec.Policy.Kind == "seq" && o.stats.ops >= 2)
 		if free {
